@@ -466,7 +466,8 @@ where
             Some(PreprocessorArgument(_)) => {
                 too_hard_for_preprocessor_cache_mode = match arg.flag_str() {
                     Some(s) if s == "-Xpreprocessor" || s == "-Wp" => Some(arg.to_os_string()),
-                    _ => None,
+                    // other preprocessor arguments (-stdlib=) must not forget an earlier -MD
+                    _ => too_hard_for_preprocessor_cache_mode,
                 };
                 &mut preprocessor_args
             }
